@@ -591,7 +591,7 @@ func ruleR09R19(c *Ctx) {
 			}
 		}
 	}
-	c.r.floor("R09", 4+4*4+2*4+6*4, "slot summaries", "C02")
+	c.r.floor("R09", 20, "slot summaries", "C02")
 
 	// ---- R19: results of the 4-lane search used as an index need the fill-count guard
 	n19 := 0
@@ -706,7 +706,7 @@ func ruleR09R19(c *Ctx) {
 		})
 	}
 	c.r.note("R19: %d guarded uses of a 4-lane search result, %d deleteChild call sites", n19, nPre)
-	c.r.floor("R19", 7+6, "fill-guard sites", "C10")
+	c.r.floor("R19", 8, "fill-guard sites", "C10")
 }
 
 func idxOrNil(e ast.Expr) ast.Expr {
